@@ -62,6 +62,10 @@ def _base(combo, fault, hs2=1, post=None):
         if k in fault:
             req[k] = fault[k]
     p0 += pre + [req]
+    if fault.get('armrun') and fault.get('twice'):
+        # the same task fails a second time before it succeeds (what the first failure set aside is in the way now)
+        p0.append(op(op='armrun', slug=fault['armrun']['slug'], kind=fault['twice'], at=fault['armrun'].get('at', 0)))
+        p0.append(op(op='req', cid='c0', task='grp:target', name='grp:target'))
     if 'crash' not in fault:
         p0.append(op(op='insp', cid='c0', kind='has_data'))
         if 'armrun' in fault:
@@ -121,4 +125,7 @@ def expand(combo, count_obs):
         for kind in RUN_FAULTS:
             for at in ((0, 1, 3) if kind == 'gen_raise' else (0,)):
                 out.append(_base(combo, {'armrun': {'slug': slug, 'kind': kind, 'at': at}}))
+            if kind in ('raise_before_return', 'unserializable', 'mistyped'):
+                for second in ('raise_before_return', 'unserializable'):
+                    out.append(_base(combo, {'armrun': {'slug': slug, 'kind': kind, 'at': 0}, 'twice': second}))
     return out, n
